@@ -460,9 +460,9 @@ def plan(tier, seed):
         for i in range(16):
             t.append({"task": "exhaustive", "maxlen": 6, "slice": i, "nslices": 16})
         for i in range(8):
-            t.append({"task": "plain", "examples": 60000})
+            t.append({"task": "plain", "examples": 40000})
         for i in range(12):
-            t.append({"task": "license", "worlds": 60, "examples": 1500})
+            t.append({"task": "license", "worlds": 40, "examples": 1500})
         for i in range(4):
             t.append({"task": "collapsed", "examples": 30000})
     return t
